@@ -63,8 +63,13 @@ static MPT_INTERFACE(metatype) *iterValueClone(const MPT_INTERFACE(metatype) *mt
 	
 	if ((ptr = mpt_iterator_values(values))) {
 		MPT_STRUCT(iteratorValues) *c = MPT_baseaddr(iteratorValues, ptr, _mt);
-		size_t diff = d->next - values;
-		c->next = ((const char *) (c + 1)) + diff;
+		/* no position in text after last element */
+		if (!d->next) {
+			c->next = 0;
+		} else {
+			size_t diff = d->next - values;
+			c->next = ((const char *) (c + 1)) + diff;
+		}
 		c->curr = d->curr;
 	}
 	return ptr;
